@@ -11,7 +11,6 @@ PEER_SETTINGS = "00040e0801ab603742013301ab60374301"   # ec=1, wt=1, datagram=1,
 
 class C19(Prop):
     id = "C19"
-    claim = False
     modules = ["H3.Props.C19"]
     engines = ["wt"]
     design_ref = "DESIGN.md section 7, C19"
